@@ -86,7 +86,7 @@ fn resp(an: u16, ns: u16, ar: u16) -> Asm {
 // ---------------------------------------------------------------------------
 // boundary families
 
-pub const N_BOUNDARY: usize = 46;
+pub const N_BOUNDARY: usize = 49;
 
 /// Build boundary case number `k` (0..N_BOUNDARY), side `legal`.
 pub fn boundary(rng: &mut Rng, k: usize, legal: bool) -> Input {
@@ -562,6 +562,37 @@ pub fn boundary(rng: &mut Rng, k: usize, legal: bool) -> Input {
             a.ptr(12).rrfix(t, 1, 0);
             inp(a.done(), "rdlen-zero", legal)
         }
+        46 => {
+            // DNAME target (pointer-free, any bytes) of 255 / 256 bytes including the root
+            let mut a = resp(1, 0, 0);
+            let n = if legal {
+                Name(vec![vec![0x01; 63], vec![b'.'; 63], vec![0xff; 63], vec![b'd'; 61]])
+            } else {
+                Name(vec![vec![0x01; 63], vec![b'.'; 63], vec![0xff; 63], vec![b'd'; 62]])
+            };
+            a.ptr(12).rrfix(T_DNAME, 7, n.wire_len() as u16).name(&n);
+            inp(a.done(), "dname-255/256", legal)
+        }
+        47 => {
+            // DNAME label of 63 / 64 bytes
+            let mut a = resp(1, 0, 0);
+            let l = if legal { 63 } else { 64 };
+            a.ptr(12).rrfix(T_DNAME, 7, (l + 2) as u16);
+            a.b.push(l as u8);
+            a.raw(&vec![b'x'; l]).root();
+            inp(a.done(), "dname-label-63/64", legal)
+        }
+        48 => {
+            // option length near 2^16: header size + length must not wrap
+            let mut a = resp(0, 0, 1);
+            a.root().u16(T_OPT).u16(4096).u32(0).u16(if legal { 4 } else { 8 });
+            if legal {
+                a.u16(12).u16(0);
+            } else {
+                a.u16(12).u16(*rng.pick(&[0xfffcu16, 0xfffd, 0xffff, 0xfffb])).raw(&[0, 0, 0, 0]);
+            }
+            inp(a.done(), "opt-option-length-wrap", legal)
+        }
         _ => unreachable!(),
     }
 }
@@ -755,7 +786,12 @@ pub fn mutate(rng: &mut Rng, base: &[u8], d: &Decoded, which: usize) -> (Vec<u8>
                 if !o.option_offs.is_empty() {
                     let oo = *rng.pick(&o.option_offs) + 2;
                     let v = u16::from_be_bytes([b[oo], b[oo + 1]]);
-                    let nv = if rng.chance(1, 2) { v.wrapping_add(1) } else { v.wrapping_sub(1) };
+                    let nv = match rng.below(4) {
+                        0 => v.wrapping_add(1),
+                        1 => v.wrapping_sub(1),
+                        2 => *rng.pick(&[0xfffcu16, 0xfffb, 0xfffd, 0xffff, 0x8000, 0xfff8]),
+                        _ => rng.u16(),
+                    };
                     b[oo..oo + 2].copy_from_slice(&nv.to_be_bytes());
                 } else {
                     // OPT rdlen tweak
